@@ -137,11 +137,12 @@ def build(ov, gen_for=None, debug_assertions=True):
     # private module of page_store, which is private to tree_store): re-export chain
     with open(os.path.join(ov, "src/tree_store/page_store/mod.rs"), "a") as fh:
         fh.write("\n#[cfg(kani)]\npub(crate) use page_manager::verif_kani::literal_mem_default as verif_literal_mem;\n"
+                 "#[cfg(kani)]\npub(crate) use page_manager::verif_kani::literal_mem_concrete as verif_literal_mem_concrete;\n"
                  "#[cfg(all(kani, not(debug_assertions)))]\npub(crate) use base::verif_kani::page_impl as verif_page_impl;\n"
                  "#[cfg(kani)]\npub(crate) use page_manager::verif_kani::{set_cur_mem as verif_set_cur_mem, backend_counters as verif_backend_counters, events as verif_events, image_god_byte as verif_image_god_byte};\n"
 )
     with open(os.path.join(ov, "src/tree_store/mod.rs"), "a") as fh:
-        fh.write("\n#[cfg(kani)]\npub(crate) use page_store::{verif_literal_mem, verif_set_cur_mem, verif_backend_counters, verif_events, verif_image_god_byte};\n"
+        fh.write("\n#[cfg(kani)]\npub(crate) use page_store::{verif_literal_mem, verif_literal_mem_concrete, verif_set_cur_mem, verif_backend_counters, verif_events, verif_image_god_byte};\n"
                  "#[cfg(all(kani, not(debug_assertions)))]\npub(crate) use page_store::verif_page_impl;\n")
     return mounted
 
